@@ -240,6 +240,17 @@ func icBody(cfg *icCfg) (*icRun, func()) {
 			r.h.onNote = func(hNote) { r.noteAt = append(r.noteAt, r.tick()) }
 			same, other := sameShardKeys(r.h.s, 3)
 			r.km = map[int]int{1: same[0], 2: same[1], 3: other, 4: same[2]}
+			// shards that hold none of the driver's keys stay empty: their locks are not scheduling points
+			used := map[int]bool{}
+			for _, k := range r.km {
+				_, idx := r.h.s.index(k)
+				used[idx] = true
+			}
+			for i, sh := range r.h.s.shards {
+				if !used[i] {
+					sh.mu.rw.Quiet = true
+				}
+			}
 		})
 		settle()
 		vrt.NoBranch(func() {
